@@ -70,30 +70,7 @@ def run(rep):
                         rep.fail("generated-validates", nm, "a freshly generated %s can fail its own decode-time validation: residual %s" % (nm, explain(S, is_ok)[:400]), site=kn.loc())
         else:
             rep.fail("keygen-wiring", "KeyPair::new", "KeyPair::new does not return a plain aggregate", site=kn.loc())
-    pn = method(prog, PARAMS, "new")
-    if rep.anchor("PedersenParameters::new", pn):
-        rep.fn(pn)
-        S = Session(prog)
-        pv = S.eval(pn)
-        h, gs = params_roles(S, pv) if pv is not None else (None, None)
-        okp = False
-        if h is not None:
-            cg = S.canon(gs)
-            okp = (S.canon(h)[0] == "rand" and under_assumptions(S, nonzero(S, h)) == 1 and cg[0] == "V" and cg[1][0] == "rand"
-                   and cg[2] == "N" and under_assumptions(S, nonzero(S, cg[1])) == 1)
-        if okp:
-            rep.ok("pedersen-new", "PedersenParameters::new", sample="h and N generators, each from its own non-identity loop")
-            from .c15 import try_from_impl, UNCHECKED
-            tf = try_from_impl(prog, PARAMS, lambda t: t[0] == "adt" and t[1] == UNCHECKED[PARAMS])
-            if rep.anchor("TryFrom<UncheckedPedersenParameters>", tf) and pv[0] == "struct":
-                r = S.call(tf, [("struct", UNCHECKED[PARAMS], 0, pv[3])])
-                is_ok = under_assumptions(S, S.alg.nb(S.eng.eq_int(S.eng.discr(r), 0))) if r is not None else 0
-                if is_ok == 1:
-                    rep.ok("generated-validates", "PedersenParameters", sample="validation of generated parameters normalises to TRUE")
-                else:
-                    rep.fail("generated-validates", "PedersenParameters", "generated Pedersen parameters can fail decode-time validation: %s" % explain(S, is_ok)[:300], site=pn.loc())
-        else:
-            rep.fail("pedersen-new", "PedersenParameters::new", "a generator is not drawn through the non-identity loop: %s" % (S.show(pv)[:400] if pv else None), site=pn.loc())
+    pedersen_new(rep)
     # signatures made with generated keys: sigma1 from non-identity loop (C07 producer-term) -> decoder accepts
     from .c07 import producers_and_chains
     producers_and_chains(rep, only=("Signature::new", "sign"))
@@ -113,3 +90,40 @@ def run(rep):
             rep.fail("merchant-config", "merchant::Config::new", "merchant configuration is not generated by the three library generators: %s" % got, site=mc.loc())
     rep.assumptions += ["termination of the rejection loops (probability-1 liveness) and uniformity are not static facts",
                         "prime-order group: non-zero scalar times non-identity element is non-identity"]
+
+
+def pedersen_new(rep):
+    """PedersenParameters::new: h and the N generators are N+1 separate draws from the non-identity loop (a commitment
+    under dependent generators, e.g. g_0 == h, is not binding), and the generated value passes its decode-time validator."""
+    prog = rep.prog
+    pn = method(prog, PARAMS, "new")
+    if rep.anchor("PedersenParameters::new", pn):
+        rep.fn(pn)
+        S = Session(prog)
+        pv = S.eval(pn)
+        h, gs = params_roles(S, pv) if pv is not None else (None, None)
+        okp = False
+        if h is not None:
+            cg = S.canon(gs)
+            okp = (S.canon(h)[0] == "rand" and under_assumptions(S, nonzero(S, h)) == 1 and cg[0] == "V" and cg[1][0] == "rand"
+                   and cg[2] == "N" and under_assumptions(S, nonzero(S, cg[1])) == 1
+                   and S.canon(h)[:3] != cg[1][:3])        # h is its own draw, not one of the g_i
+        if okp:
+            rep.ok("pedersen-new", "PedersenParameters::new", sample="h and N generators, each from its own non-identity loop")
+            from .c15 import try_from_impl, UNCHECKED
+            tf = try_from_impl(prog, PARAMS, lambda t: t[0] == "adt" and t[1] == UNCHECKED[PARAMS])
+            if rep.anchor("TryFrom<UncheckedPedersenParameters>", tf) and pv[0] == "struct":
+                r = S.call(tf, [("struct", UNCHECKED[PARAMS], 0, pv[3])])
+                is_ok = under_assumptions(S, S.alg.nb(S.eng.eq_int(S.eng.discr(r), 0))) if r is not None else 0
+                if is_ok == 1:
+                    rep.ok("generated-validates", "PedersenParameters", sample="validation of generated parameters normalises to TRUE")
+                else:
+                    rep.fail("generated-validates", "PedersenParameters", "generated Pedersen parameters can fail decode-time validation: %s" % explain(S, is_ok)[:300], site=pn.loc())
+        else:
+            rep.fail("pedersen-new", "PedersenParameters::new", "a generator is not its own draw from the non-identity loop (h and the g_i must be N+1 independent draws): %s" % (S.show(pv)[:400] if pv else None), site=pn.loc())
+
+
+def independent_generators(rep):
+    from ..core import RuleView
+    rep.rule("params-independent", "necessary condition shared with C19: PedersenParameters::new returns h and g_1..g_N as N+1 separate fresh non-identity draws - with g_i == h (or any known relation) a commitment opens to other messages, so `opens only to what was committed` / `token only against the right pair` fail although every equation is checked exactly")
+    pedersen_new(RuleView(rep, {"pedersen-new": "params-independent", "generated-validates": "params-independent"}))
